@@ -756,7 +756,7 @@ def show(t, depth=0):
     if tag == 'loopout':
         return f'loop<{_keyname(t[1])}; init {show(t[2])}; step {show(t[3])}' + ('' if t[4] == FALSE else f'; break if {show(t[4])}') + '>'
     if tag == 'carried':
-        return f'@acc{t[1]}'
+        return f'@acc{t[1]}<{brief(t[4], 40)}>' if len(t) > 4 else f'@acc{t[1]}'
     if tag == 'first':
         return f'first<{_keyname(t[1])} if {show(t[2])}: {show(t[3])}>'
     if tag == 'opaque':
@@ -785,3 +785,21 @@ def _lvname(t):
 def brief(t, n=160):
     s = show(t)
     return s if len(s) <= n else s[:n - 3] + '...'
+
+
+def first_diff(a, b, depth=0):
+    """smallest differing pair of sub-terms (for diagnosable reports)"""
+    if a == b:
+        return None
+    if isinstance(a, tuple) and isinstance(b, tuple) and len(a) == len(b) and a and b and (not isinstance(a[0], str) or a[0] == b[0]) and depth < 60:
+        diffs = [(x, y) for x, y in zip(a, b) if x != y]
+        if diffs:
+            d = first_diff(diffs[0][0], diffs[0][1], depth + 1)
+            if d is not None:
+                return d
+    return (a, b)
+
+
+def anonymise_lv(t):
+    """replace the description of what each bound variable ranges over by its nesting depth only"""
+    return subst(t, lambda x: ('lv', 'K', x[2]) if x[0] == 'lv' else ('carried', x[1], 'K', x[3]) + x[4:] if x[0] == 'carried' else None)
